@@ -91,6 +91,8 @@ class Ctx:
         self.samples = []          # (size, case)
         self.violation = None      # {'case','msg','sig'}
         self.replaying = False
+        self.collect = bool(os.environ.get('VERIF_COLLECT'))
+        self.collected = {}        # canon(sig) -> [count, first message]
 
     # -- journal
     def begin(self, case):
@@ -153,6 +155,13 @@ class Ctx:
         """Oracle disagreement.  Known open finding: count it and continue (or abandon the
         case); otherwise a violation."""
         if self.known(sig):
+            if recoverable:
+                return
+            raise Abandon()
+        if self.collect:
+            # triage mode: enumerate root causes instead of stopping at the first one
+            e = self.collected.setdefault(canon(sig), [0, msg])
+            e[0] += 1
             if recoverable:
                 return
             raise Abandon()
@@ -229,6 +238,7 @@ class Ctx:
             'excluded': dict(self.excluded),
             'samples': [c for _, c in self.samples],
             'violation': self.violation,
+            'collected': self.collected,
         }
 
 
@@ -483,6 +493,17 @@ def main_check(pid, tier):
                                    'msg': 'worker process died (rc=%s) while running this case; '
                                           'log tail:\n%s' % (rc, tail[-3000:]),
                                    'sig': {'crash': True}})
+        collected = {}
+        for shard, res, rc, jcase, tail in results:
+            for k, (n, msg) in ((res or {}).get('collected') or {}).items():
+                e = collected.setdefault(k, [0, msg])
+                e[0] += n
+        if collected:
+            print('TRIAGE (VERIF_COLLECT): %d distinct signatures' % len(collected))
+            for k, (n, msg) in sorted(collected.items(), key=lambda kv: -kv[1][0]):
+                print('  %6d x %s\n           %s' % (n, k, msg[:400].replace('\n', ' ')))
+            violations.append({'case': {'triage': True}, 'msg': 'triage mode', 'sig': {'triage': True},
+                               'variant': 'rel', 'kind': 'oracle'})
         wall = time.time() - t0
         samples.sort(key=lambda c: len(canon(c)))
         if len(samples) > 3:
